@@ -160,7 +160,7 @@ def _adjust_modulus_offset(
 
     if len(args) > 1 and num_procs > 1:
         with Pool(num_procs) as pool:
-            for res in pool.imap_unordered(_adjust_offset, args):
+            for res in pool.imap(_adjust_offset, args):
                 results.append(res)
                 prog.increment()
 
